@@ -85,29 +85,33 @@ def main():
         if not refactor:
                 meta['confirmed'] = bool(meta.get('tests_pass_with_patch') and meta.get('demo_with_patch_rc') != 0
                                      and meta.get('demo_without_patch_rc') == 0)
-    # ---- checks
-    rc, out = sh('git -C %s status --porcelain' % REPO)
-    if out.strip():
-        print('/repo is not clean, refusing to apply the patch:', out)
-        raise SystemExit(4)
-    rc, out = sh('git -C %s apply %s' % (REPO, patch))
+    # ---- checks: against a scratch copy of /repo HEAD with the patch (PMV_REPO), evidence redirected; /repo is not touched
+    wt = '/tmp/eval_%s' % sid
+    ev = '/tmp/eval_%s_evidence' % sid
+    sh('git -C %s worktree remove --force %s' % (REPO, wt))
+    sh('rm -rf %s %s' % (wt, ev))
+    rc, out = sh('git -C %s worktree add -q -f %s HEAD' % (REPO, wt))
     results = {}
     try:
+        rc, out = sh('git apply %s' % patch, cwd=wt)
         if rc != 0:
-            print('cannot apply to /repo', out)
+            print('cannot apply the patch', out)
             raise SystemExit(3)
+        os.makedirs(os.path.join(ev, 'replay'), exist_ok=True)
         from concurrent.futures import ThreadPoolExecutor
 
         def one(pid):
-            rc, out = sh('./check %s --tier quick' % pid, cwd=VERIF, timeout=600)
+            rc, out = sh('PMV_REPO=%s PMV_EVIDENCE_DIR=%s ./check %s --tier quick' % (wt, ev, pid), cwd=VERIF, timeout=600)
             fails = [l for l in out.split('\n') if l.startswith('FAIL ')]
             err = [l for l in out.split('\n') if l.startswith('ANALYSIS-ERROR')]
             return pid, dict(rc=rc, fails=[f[:300] for f in fails[:6]], error=(err[0][:300] if err else None))
-        with ThreadPoolExecutor(max_workers=10) as ex:
+        with ThreadPoolExecutor(max_workers=int(os.environ.get('SEED_JOBS', '10'))) as ex:
             for pid, r in ex.map(one, ['C%02d' % i for i in range(1, 21)]):
                 results[pid] = r
     finally:
-        sh('git -C %s checkout -- .' % REPO)
+        sh('git -C %s worktree remove --force %s' % (REPO, wt))
+        sh('git -C %s worktree prune' % REPO)
+        sh('rm -rf %s %s' % (wt, ev))
     # restore evidence written on the unmodified tree
     detected = sorted(p for p, r in results.items() if r['rc'] == 1)
     errors = sorted(p for p, r in results.items() if r['rc'] == 2)
